@@ -36,6 +36,9 @@ TRICKY = [
     "foo $$ bar\n", "foo;$$\n", "foo '$$'\n", "foo $$bar\n", "foo\n$$\n",
     "# c1\nfoo # c2\n# c3\n", "if a; then b # c\n# d\nelse # e\nc\n# f\nfi # g\n",
     "case x in # a\n# b\ny) z ;; # c\n# d\nesac # e\n", "a=( # c\n[1]=x # d\n# e\ny\n# f\n)\n",
+    "case i in\nx)\n\ta\n\t;;\n\t#a\n#b\n\t#c\ny) ;;\nesac", "case i in\nx) a ;; #a\n#b\n#c\nesac\n",
+    "a=(\n\tb # x\n\t# y\n\t# z\n\tc\n)\n", "a=(\n\t[1]=b # x\n\t# y\n)\n", "foo # a\n# b\n# c\nbar\n", "foo <<EOF # a\nx\nEOF\n# b\n",
+    "#foo\n{ bar;", "# c\n( foo", "foo # c\n{ a; b", "if a; then b # c\n", "a=(b # c\n", "case x in a) b # c\n",
     "{ # c\nfoo\n# d\n}\n", "( # c\nfoo\n# d\n)\n", "foo | # c\nbar\n", "foo && # c\n# d\nbar\n",
     "while a # c\ndo b # d\n# e\ndone # f\n", "for i in 1 2 # c\ndo :; done\n", "$( # c\nfoo # d\n)\n", "f() # c\n{ :; }\n",
     "declare -a foo=(b c)\n", "local x=1 y\n", "export A=b\n", "readonly r\n", "typeset -i n\n", "nameref n=x\n",
@@ -64,13 +67,35 @@ EXTRA_PROVIDERS = []
 _memo = {}
 
 
-def classified(harness=None):
+def generated(ck, tier, max_layouts=None):
+    """Sources from the TLA+ grammar generator (spec/ShSyntax.tla via lib/syn.py): every emitted
+    derivation rendered under the spec's layouts. Only concatenation happens here."""
+    import syn
+    vecs = syn.generate(ck, tier, ck.seed, emit_sim=False)
+    layouts = syn.load_layouts()
+    if max_layouts:
+        layouts = layouts[:max_layouts]
+    out, seen = [], set()
+    for v in vecs:
+        for L in layouts:
+            try:
+                src = syn.render(v["r"], L)
+            except Exception:
+                continue
+            if src and src not in seen and len(src) <= 4096:
+                seen.add(src)
+                out.append(src)
+    return out
+
+
+def classified(harness=None, extra=()):
     """[(src, [variants in which it parses])] for every extracted + tricky + provided source."""
-    key = vlib.REPO
+    extra = list(extra)
+    key = (vlib.REPO, len(extra), hash(tuple(extra)))
     if key in _memo:
         return _memo[key]
     h = harness or vlib.build_harness("synaux")
-    extra = list(TRICKY)
+    extra = list(TRICKY) + extra
     for prov in EXTRA_PROVIDERS:
         extra.extend(prov())
     vec = {"repo": vlib.REPO, "files": TEST_FILES, "maxlen": 4096, "extra": extra}
@@ -84,8 +109,8 @@ def classified(harness=None):
     return out
 
 
-def sources(variant=None, harness=None):
-    cl = classified(harness)
+def sources(variant=None, harness=None, extra=()):
+    cl = classified(harness, extra)
     if variant is None:
         return [s for s, _ in cl]
     return [s for s, ok in cl if variant in ok]
